@@ -1,5 +1,7 @@
 import Logrange.Proofs.LqlInt
 import Logrange.Proofs.LqlLexNP
+import Logrange.Proofs.LqlFuel
+import Logrange.Proofs.LqlQuoteRT
 /-!
 # C12 — LQL statements keep their meaning through print and re-parse
 
@@ -490,5 +492,67 @@ theorem engine_eq_direct_source_lexed (text : Bytes) (ts : List Tok) (h : lex te
   engine_eq_direct_source ts (lex_operandNotParen text ts h) ft hft
 
 example : (lex (txt "a = \"1\" AND NOT ( b like \"x\" OR f(c,d) PREFIX \"5\" )")).isSome = true := by decide +kernel
+
+/-! ## fuels: `directFuel` always suffices; the conversion fuel `8·n+50` always suffices (`Proofs/LqlFuel.lean`) -/
+
+/-- **the direct expression parser does not depend on its fuel once it is ≥ `directFuel toks = 4·n+16`** -/
+theorem direct_fuel_suffices_expr (toks : List Tok) (f f' : Nat) (h : directFuel toks ≤ f) (h' : directFuel toks ≤ f') :
+    dExpr f toks = dExpr f' toks := dExpr_fuel_indep toks f f' h h'
+
+theorem direct_fuel_suffices_source (toks : List Tok) (f f' : Nat) (h : directFuel toks ≤ f) (h' : directFuel toks ≤ f') :
+    dSource f toks = dSource f' toks := dSource_fuel_indep toks f f' h h'
+
+/-- … and so does the direct statement parser (every statement kind) -/
+theorem direct_fuel_suffices_lql (dp : Bytes → Option Int) (toks : List Tok) (f f' : Nat) (h : directFuel toks ≤ f)
+    (h' : directFuel toks ≤ f') : directLqlFuel dp f toks = directLqlFuel dp f' toks := directLqlFuel_indep dp toks f f' h h'
+
+/-- **`C12_wf` with the parser's own fuel: no fuel hypothesis left** — `directLql` (fuel `directFuel`) returns exactly the
+statement from `tokensOf` of it, every statement kind, any depth -/
+theorem C12_wf_canonical_fuel (dp : Bytes → Option Int) (rd : Int → Bytes) (l : Lql) (hw : wfLql rd l = true)
+    (hc : LqlContract dp rd l) : directLql dp (toksLql rd l) = some l := directLql_toksLql dp rd l hw hc
+
+theorem token_roundtrip_expr_canonical_fuel (e : Expr) (hw : wfExpr e = true) : directExpr (toksExpr e) = some e :=
+  directExpr_toksExpr e hw
+
+/-- **engine = direct parser with the models' own three fuels** (`runEngine`: `60·n+200`, conversion: `8·n+50` as in
+`parseLql` and the driver, direct: `directFuel`): the conversion fuel hypothesis of `engine_eq_direct_expr` is discharged
+(`cvExpr e ≤ 3·n` for every AST the direct parser returns) -/
+theorem engine_eq_direct_expr_canonical (toks : List Tok) (hH : OperandNotParen toks) :
+    (runEngine Logrange.Generated.C12.grammar "Expression" toks).bind (toExpr (8 * toks.length + 50)) = directExpr toks :=
+  engine_eq_direct_expr toks hH _ (fun e he => directExpr_cv toks e he)
+
+theorem engine_eq_direct_source_canonical (toks : List Tok) (hH : OperandNotParen toks) :
+    (runEngine Logrange.Generated.C12.grammar "Source" toks).bind (toSource (8 * toks.length + 50)) = directSource toks :=
+  engine_eq_direct_source toks hH _ (fun s hs => directSource_cv toks s hs)
+
+/-- **`lql.ParseExpr` on a TEXT: the engine route (what the driver's `E=` answer computes) = the direct route (`D=`)**,
+no hypothesis at all -/
+theorem parse_expr_text_engine_eq_direct (text : Bytes) :
+    (lex text).bind (fun ts => (runEngine Logrange.Generated.C12.grammar "Expression" ts).bind (toExpr (8 * ts.length + 50)))
+      = (lex text).bind directExpr := by
+  cases h : lex text with
+  | none => rfl
+  | some ts => exact engine_eq_direct_expr_canonical ts (lex_operandNotParen text ts h)
+
+theorem parse_source_text_engine_eq_direct (text : Bytes) :
+    (lex text).bind (fun ts => (runEngine Logrange.Generated.C12.grammar "Source" ts).bind (toSource (8 * ts.length + 50)))
+      = (lex text).bind directSource := by
+  cases h : lex text with
+  | none => rfl
+  | some ts => exact engine_eq_direct_source_canonical ts (lex_operandNotParen text ts h)
+
+/-! ## `strAtomOK` for every valid-UTF-8 value (`Proofs/LqlQuoteRT.lean`) -/
+
+/-- the body `strconv.Quote` produces has the shape the String token pattern consumes whole — EVERY byte string -/
+theorem quote_body_shape_every_string (v : Bytes) : strOK (GoLib.quoteBody (v.length + 1) v GoLib.DQ) = true :=
+  strOK_quoteBody v
+
+/-- **every valid-UTF-8 value is a lexable atom**: quoted by `strconv.Quote`, lexed as one String token, read back by
+participle's unquote — the value clause of `laExpr` holds for every valid-UTF-8 value (for other values it is false:
+`\xNN` comes back as a two-byte rune) -/
+theorem strAtomOK_every_valid_utf8 (v : Bytes) (h : GoLib.isValidUtf8 v = true) : strAtomOK v = true := strAtomOK_of_valid v h
+
+example : strAtomOK [0xff] = false ∧ GoLib.isValidUtf8 [0xff] = false ∧ GoLib.isValidUtf8 [0xc3, 0xa9, 32, 34, 92, 9, 0xe2, 0x82, 0xac] = true := by
+  decide +kernel
 
 end Logrange.Props.C12
